@@ -1187,11 +1187,13 @@ func (m *Manager) V2TransactionSet(basis types.ChainIndex, txn types.V2Transacti
 	// get the transaction's parents
 	parentMap := m.computeParentMap()
 	var parents []types.V2Transaction
+	var parentIndices []int
 	seen := make(map[int]bool)
 	check := func(id types.Hash256) {
 		if index, ok := parentMap[id]; ok && !seen[index] {
 			seen[index] = true
-			parents = append(parents, m.txpool.v2txns[index].DeepCopy())
+			parents = append(parents, m.txpool.v2txns[index])
+			parentIndices = append(parentIndices, index)
 		}
 	}
 	addParents := func(txn types.V2Transaction) {
@@ -1220,10 +1222,13 @@ func (m *Manager) V2TransactionSet(basis types.ChainIndex, txn types.V2Transacti
 			break
 		}
 	}
-	// reverse so that parents always come before children
-	for i := range len(parents) / 2 {
-		j := len(parents) - 1 - i
-		parents[i], parents[j] = parents[j], parents[i]
+	// return the parents in pool order, which is always a valid order;
+	// discovery order (or its reverse) is not when a transaction has several
+	// unconfirmed parents that depend on each other
+	sort.Ints(parentIndices)
+	parents = parents[:0]
+	for _, index := range parentIndices {
+		parents = append(parents, m.txpool.v2txns[index].DeepCopy())
 	}
 
 	// update the transaction's basis to match tip
